@@ -4,10 +4,18 @@
   All theorems are class [S] (no arithmetic law of the scalar type is used; they hold for
   `Float`).  The event order comes from the loop skeleton of C04 (`ClarabelModel/Loop.lean`);
   the routing / rendering model is `ClarabelModel/Print.lean`.
+  Round 3: the `Write` impl of `PrintTarget` over sinks that answer short counts /
+  `Interrupted` / errors (`ClarabelModel/PrintWrite.lean`), and the configuration header, table
+  header and footer as functions of the settings and of the problem data the solver holds
+  (`ClarabelModel/PrintHeader.lean`; float formatting is a parameter `FloatFmt`).
   Not carried by a theorem: the OS side of stdout and files, Rust's float formatting.
 -/
 import ClarabelProofs.Lemmas.LoopRows
 import ClarabelProofs.Lemmas.Print
+import ClarabelProofs.Lemmas.PrintWrite
+import ClarabelProofs.Lemmas.PrintHeader
+import ClarabelProofs.Lemmas.PrintHeaderData
+import ClarabelProofs.Lemmas.PrintHeaderLoop
 
 namespace Clarabel.C20
 open Clarabel Clarabel.Loop Clarabel.Print
@@ -269,6 +277,280 @@ theorem last_row (cfg : Config α) (hv : cfg.verbose = true) (hrl : cfg.rollback
       rw [hrows, hinfo]
       exact hR.lastFig hv hrl
 
+
+/-! ## Round 3 — the `Write` impl of `PrintTarget` -/
+
+/-- [S] `C20.write_all_forwards`: whatever the sink of the selected variant answers to the
+forwarded `write` calls (short counts, `Interrupted`, errors, `Ok(0)`), after `write_all(buf)`
+the sink holds what it held before followed by the first `k ≤ len` bytes of `buf` — no byte is
+lost in the middle, duplicated, reordered or invented — and `k = len` when `write_all` returns
+`Ok(())`; the variant of the target is unchanged; a `Sink` holds nothing. -/
+theorem write_all_forwards (t : Target) (buf : Bytes) :
+    t.sameKind (t.writeAll buf).2
+      ∧ ∃ k, k ≤ buf.length
+          ∧ (t.writeAll buf).2.delivered = (if t.isSink then [] else t.delivered ++ buf.take k)
+          ∧ ((t.writeAll buf).1 = .ok () → k = buf.length) :=
+  Target.writeAllFuel_prefix _ t buf
+
+/-- [S] `C20.write_all_ok`: a sink that only answers short non-zero counts and `Interrupted`
+cannot make `write_all` fail: it returns `Ok(())` and the whole slice has been forwarded,
+exactly once and in order. -/
+theorem write_all_ok (t : Target) (buf : Bytes) (hw : WellBehaved t.pending) :
+    (t.writeAll buf).1 = .ok ()
+      ∧ (t.writeAll buf).2.delivered = (if t.isSink then [] else t.delivered ++ buf)
+      ∧ WellBehaved (t.writeAll buf).2.pending :=
+  let h := Target.writeAll_delivered t buf hw
+  ⟨h.1, h.2.1, h.2.2.2⟩
+
+/-- non-vacuity: a script with short writes and an interruption is well behaved; the five
+bytes arrive although the sink takes them in three calls -/
+example : WellBehaved [.ok 1, .interrupted, .ok 3] := by decide
+example : ((Target.stream { script := [.ok 1, .interrupted, .ok 3] }).writeAll [1, 2, 3, 4, 5]).2.delivered
+    = [1, 2, 3, 4, 5] := by decide
+example : ((Target.stream { script := [.ok 1, .interrupted, .ok 3] }).writeAll [1, 2, 3, 4, 5]).2.calls
+    = [5, 4, 4, 1] := by decide
+
+/-- [S] `C20.write_target_independent`: the bytes delivered to a buffer, a stream, a file and
+stdout are identical — the concatenation of the pieces the print functions `write_all` — for
+every sequence of pieces and every (well-behaved) short-write behaviour of the three sinks; a
+`Sink` receives nothing.  This is `target_independent` with the forwarding made explicit. -/
+theorem write_target_independent (ps : List Bytes) (s1 s2 s3 : List WriteRes)
+    (h1 : WellBehaved s1) (h2 : WellBehaved s2) (h3 : WellBehaved s3) :
+    ((Target.buffer []).writePieces ps).2.delivered = ps.flatten
+      ∧ ((Target.stream { script := s1 }).writePieces ps).2.delivered = ps.flatten
+      ∧ ((Target.file { script := s2 }).writePieces ps).2.delivered = ps.flatten
+      ∧ ((Target.stdout { script := s3 }).writePieces ps).2.delivered = ps.flatten
+      ∧ (Target.sink.writePieces ps).2.delivered = []
+      ∧ ((Target.stream { script := s1 }).writePieces ps).1 = .ok () := by
+  have hb := Target.writePieces_delivered (.buffer []) ps (by intro r hr; cases hr)
+  have hs := Target.writePieces_delivered (.stream { script := s1 }) ps h1
+  have hf := Target.writePieces_delivered (.file { script := s2 }) ps h2
+  have ho := Target.writePieces_delivered (.stdout { script := s3 }) ps h3
+  have hk := Target.writePieces_delivered .sink ps (by intro r hr; cases hr)
+  refine ⟨?_, ?_, ?_, ?_, ?_, hs.1⟩
+  · simpa [Target.isSink, Target.delivered] using hb.2.1
+  · simpa [Target.isSink, Target.delivered] using hs.2.1
+  · simpa [Target.isSink, Target.delivered] using hf.2.1
+  · simpa [Target.isSink, Target.delivered] using ho.2.1
+  · simpa [Target.isSink] using hk.2.1
+
+/-- [S] `C20.write_error_prefix`: when a sink fails in the middle of a print function (the
+`?` after a `write_all`), what it holds is still a prefix of the intended output. -/
+theorem write_error_prefix (t : Target) (ps : List Bytes) (ht : t.isSink = false) :
+    ∃ rest, (t.writePieces ps).2.delivered ++ rest = t.delivered ++ ps.flatten :=
+  Target.writePieces_prefix t ps ht
+
+/-- [S] `C20.write_refines`: forgetting the sink, a successful `write_all` is the coarse
+`PrintTarget.write` on which `silent`, `target_independent` and `get_print_buffer` are stated. -/
+theorem write_refines (t : Target) (buf : Bytes) (hw : WellBehaved t.pending) :
+    ((t.writeAll buf).2.abs).delivered = (t.abs.write buf).delivered
+      ∧ ((t.writeAll buf).2.abs = .sink ↔ t.abs = .sink) :=
+  Target.writeAll_abs t buf hw
+
+/-- why `write_all` must loop (the shape of seeded defect C20-c): an override that forwards a
+single `write` and drops the count reports success and loses bytes on a short write. -/
+theorem write_once_loses_bytes :
+    ((Target.stream { script := [.ok 1] }).writeOnce [1, 2, 3]).1 = .ok ()
+      ∧ ((Target.stream { script := [.ok 1] }).writeOnce [1, 2, 3]).2.delivered = [1]
+      ∧ ((Target.stream { script := [.ok 1] }).writeAll [1, 2, 3]).2.delivered = [1, 2, 3] := by
+  decide
+
+/-! ## Round 3 — configuration header, table header, footer -/
+
+/-- [S] `C20.header_silent`: with `verbose = false` none of the print functions produces a
+byte — `print_configuration` (and with it `print_settings` and the chordal block),
+`print_status_header`, `print_footer`, the banner — and the log of the whole solve is empty. -/
+theorem header_silent {β : Type} (fmt : FloatFmt β) (lin : LinearSolverInfo) (set : Settings β) (s : Summary)
+    (hv : set.verbose = false) (version : String) (debug : Bool) (rows : List RowText) (st : Status) (t : β) :
+    configurationToks fmt lin set s = []
+      ∧ printConfiguration fmt lin set s = ""
+      ∧ printStatusHeader set.verbose = ""
+      ∧ printFooter fmt set.verbose st t = ""
+      ∧ printBanner set.verbose version debug = ""
+      ∧ wholeLog fmt lin set s version debug rows st t = .ok "" := by
+  refine ⟨configurationToks_silent fmt lin set s hv, ?_, ?_, ?_, ?_, wholeLog_silent fmt lin set s version debug rows st t hv⟩
+  · unfold printConfiguration; rw [configurationToks_silent fmt lin set s hv]; rfl
+  · rw [hv]; rfl
+  · rw [hv]; rfl
+  · rw [hv]; rfl
+
+/-- [S] `C20.header_fields`: with `verbose = true` the arguments `print_configuration` renders
+are, in this order: the presolve count (iff a presolver object exists), the chordal block (iff
+the problem was decomposed), `data.n`, `data.m`, `nnz(P)`, `nnz(A)`, the number of cones, the
+seven cone lines, and the settings echo — each the field named by its label. -/
+theorem header_fields {β : Type} (fmt : FloatFmt β) (lin : LinearSolverInfo) (set : Settings β) (s : Summary)
+    (hv : set.verbose = true) :
+    fieldsOf (configurationToks fmt lin set s) =
+      (s.presolveRemoved.map (fun k => ("presolver.count_reduced", toString k))).toList
+        ++ fieldsOf (chordalToks set s.chordal)
+        ++ ([("data.n", toString s.n), ("data.m", toString s.m), ("data.P.nnz", toString s.nnzP),
+             ("data.A.nnz", toString s.nnzA), ("cones.len", toString s.cones.length)]
+            ++ allTags.map (fun t => ("cones." ++ t.name, printConedimsByType s.cones t)))
+        ++ fieldsOf (settingsToks fmt lin set) := by
+  unfold configurationToks
+  simp only [hv, Bool.not_true, Bool.false_eq_true, ↓reduceIte]
+  rw [fieldsOf_append, fieldsOf_append, fieldsOf_append, fieldsOf_presolveToks, fieldsOf_problemToks]
+
+/-- non-vacuity / the chordal block on a concrete record -/
+example : fieldsOf (chordalToks (α := Nat)
+      { verbose := true, maxIter := 0, timeLimit := 0, maxStepFraction := 0, tolFeas := 0, tolGapAbs := 0,
+        tolGapRel := 0, staticRegularizationEnable := true, staticRegularizationConstant := 0,
+        staticRegularizationProportional := 0, dynamicRegularizationEnable := true,
+        dynamicRegularizationEps := 0, dynamicRegularizationDelta := 0, iterativeRefinementEnable := true,
+        iterativeRefinementReltol := 0, iterativeRefinementAbstol := 0, iterativeRefinementMaxIter := 10,
+        iterativeRefinementStopRatio := 0, equilibrateEnable := true, equilibrateMinScaling := 0,
+        equilibrateMaxScaling := 0, equilibrateMaxIter := 10, chordalDecompositionCompact := true,
+        chordalDecompositionCompleteDual := false, chordalDecompositionMergeMethod := "clique_graph" }
+      (some { initPsd := 1, decomposable := 1, premerge := 5, final := 3 }))
+    = [("chordal_decomposition_compact", "on"), ("chordal_decomposition_complete_dual", "false"),
+       ("chordal_decomposition_merge_method", "clique_graph"), ("init_psd_cone_count", "1"),
+       ("decomposable_cone_count", "1"), ("premerge_psd_cone_count", "5"), ("final_psd_cone_count", "3")] := by
+  decide
+
+section data
+variable {β : Type} [Add β] [Sub β] [Mul β] [Div β] [OfNat β 0] [OfNat β 1] [LT β] [DecidableLT β] [FloatLike β]
+
+/-- [S] `C20.header_reports_data`: for the problem data `d` that (the model of)
+`DefaultProblemData::new` builds from the user's problem, the header reports the *internal*
+problem: `variables` and `constraints` are the column / row count of the reduced `A`,
+`nnz(P)` is counted on the upper triangle `P` was reduced to, `nnz(A)` on the reduced `A`, the
+cone lines describe the collapsed and reduced cone list, and the presolve line is present iff
+a presolver object exists and shows `mfull − mreduced`.
+(C09 `problemdata_new_spec` says what these steps compute: `m = count keep`, the reduced list
+has `m` rows, `mfull = |b|`, `mreduced = m`.) -/
+theorem header_reports_data (P : Csc β) (q : Array β) (A : Csc β) (b : Array β) (cones : List (ConeT β))
+    (presolve chordal : Bool) (inf : β) (d : ProblemData β)
+    (h : ProblemData.new P q A b cones presolve chordal inf = .ok d) (ch : Option ChordalCounts) :
+    ∃ Pn ps r, ProblemData.triuStep P = .ok Pn
+      ∧ ProblemData.tryPresolver b (Cones.newCollapsed cones) presolve inf = .ok ps
+      ∧ ProblemData.reduceStep ps A b (Cones.newCollapsed cones) = .ok r
+      ∧ Summary.ofData d ch =
+          { presolveRemoved := ps.map (fun p => p.mfull - p.mreduced), chordal := ch,
+            n := r.1.n, m := r.1.m, nnzP := Pn.nnz, nnzA := r.1.nnz, cones := coneSummary r.2.2 } :=
+  summary_ofData_new P q A b cones presolve chordal inf d h ch
+
+end data
+
+/-- [S] `C20.header_counts_total`: the counts printed on the cone lines add up to the number
+of cones printed as `cones (total)` — every internal cone is listed under exactly one type —
+and the dimensions of the cones listed under the seven types add up to the dimensions of all
+cones; for problem data whose cone list has `m` rows (C09 `problemdata_new_spec`) that is the
+number printed as `constraints`. -/
+theorem header_counts_total (cones : List (Tag × Nat)) :
+    (allTags.map (fun t => (nvarsOf cones t).length)).sum = cones.length
+      ∧ (allTags.map (fun t => (nvarsOf cones t).sum)).sum = (cones.map (·.2)).sum :=
+  ⟨counts_sum cones, numel_sum cones⟩
+
+theorem header_numel_is_m {β : Type} (d : ProblemData β) (ch : Option ChordalCounts)
+    (hm : Cones.numel d.cones = d.m) :
+    (allTags.map (fun t => (nvarsOf (Summary.ofData d ch).cones t).sum)).sum = (Summary.ofData d ch).m
+      ∧ (allTags.map (fun t => (nvarsOf (Summary.ofData d ch).cones t).length)).sum = d.cones.length := by
+  refine ⟨?_, ?_⟩
+  · rw [numel_sum]
+    show ((coneSummary d.cones).map (·.2)).sum = d.m
+    rw [coneSummary_numel, hm]
+  · rw [counts_sum]
+    exact coneSummary_length d.cones
+
+/-- non-vacuity of `header_numel_is_m` -/
+example : Cones.numel ([.zero 2, .soc 3, .exp] : List (ConeT Int)) = 8 := by decide
+
+/-- [S] `C20.header_elision_bound`: the line of a cone type carried by `k ≥ 2` cones shows the
+true count `k` and lists the dimensions `shownDims`: `min k 5` of them — never more than five
+—, a sublist of the true dimensions in order; all of them when `k ≤ 5`; the first four and the
+last one, with the marker `...,` between, when `k > 5`. -/
+theorem header_elision_bound (cones : List (Tag × Nat)) (tag : Tag)
+    (h2 : 2 ≤ (nvarsOf cones tag).length) :
+    (nvarsOf cones tag).length = cones.countP (fun c => c.1 = tag)
+      ∧ printConedimsByType cones tag =
+          ("    : " ++ padLeft 11 tag.name ++ " = " ++ toString (nvarsOf cones tag).length ++ ", ")
+            ++ (" numel = ("
+              ++ String.join ((shownDims (nvarsOf cones tag)).dropLast.map (fun v => toString v ++ ","))
+              ++ (if (nvarsOf cones tag).length ≤ 5 then "" else "...,")
+              ++ toString ((shownDims (nvarsOf cones tag)).getLast?.getD 0) ++ ")")
+            ++ "\n"
+      ∧ (shownDims (nvarsOf cones tag)).length = min (nvarsOf cones tag).length 5
+      ∧ (shownDims (nvarsOf cones tag)).length ≤ 5
+      ∧ (shownDims (nvarsOf cones tag)).Sublist (nvarsOf cones tag)
+      ∧ ((nvarsOf cones tag).length ≤ 5 → shownDims (nvarsOf cones tag) = nvarsOf cones tag)
+      ∧ (5 < (nvarsOf cones tag).length →
+          (shownDims (nvarsOf cones tag)).take 4 = (nvarsOf cones tag).take 4
+            ∧ (shownDims (nvarsOf cones tag)).getLast? = (nvarsOf cones tag).getLast?) := by
+  have hne : nvarsOf cones tag ≠ [] := by
+    intro hh; rw [hh] at h2; simp at h2
+  have hlen := shownDims_length _ hne
+  refine ⟨nvarsOf_length cones tag, ?_, hlen, by omega, shownDims_sublist _ hne,
+    fun h5 => shownDims_of_le _ hne h5, fun h5 => shownDims_take4 _ h5⟩
+  rw [header_elision cones tag h2]
+  have hd : (shownDims (nvarsOf cones tag)).dropLast
+      = (if (nvarsOf cones tag).length ≤ 5 then (nvarsOf cones tag).dropLast else (nvarsOf cones tag).take 4) := by
+    unfold shownDims; rw [List.dropLast_concat]
+  have hl : (shownDims (nvarsOf cones tag)).getLast?.getD 0 = (nvarsOf cones tag).getLast?.getD 0 := by
+    unfold shownDims; rw [List.getLast?_concat]; rfl
+  rw [hd, hl]
+
+/-- non-vacuity / the rule on a concrete list of seven -/
+example : shownDims [3, 4, 5, 6, 7, 8, 9] = [3, 4, 5, 6, 9] := by decide
+example : shownDims [3, 4, 5, 6, 7] = [3, 4, 5, 6, 7] := by decide
+
+/-- [S] `C20.settings_echo_determines`: every argument of the settings echo is the field of the
+settings / linear-solver record named by its label (`fieldsOf_settingsToks`), and the echo does
+not conflate settings: two echoes with the same arguments come from records that agree in
+every integer, boolean and text field shown, and in every float field at the resolution of its
+format (`time_limit`: both infinite, or the same `{:?}` text). -/
+theorem settings_echo_determines {β : Type} (fmt : FloatFmt β) (lin lin' : LinearSolverInfo)
+    (s s' : Settings β)
+    (h : fieldsOf (settingsToks fmt lin s) = fieldsOf (settingsToks fmt lin' s')) :
+    echoExact lin s = echoExact lin' s' ∧ echoFloats fmt s = echoFloats fmt s' :=
+  Print.settings_echo_determines fmt lin lin' s s' h
+
+
+/-- [S] `C20.header_settings_govern_loop`: `solve()` hands one settings record to
+`print_configuration` and to the loop.  For the loop run with the record the echo shows: the
+echo's `max iter` argument is `toString max_iter`, no number in the iteration column of the
+progress table exceeds that `max_iter`, the returned iteration count neither; and with
+`verbose = false` the header, the table and the footer are all empty. -/
+theorem header_settings_govern_loop (fmt : FloatFmt α) (lin : LinearSolverInfo) (set : Settings α)
+    (infeasAbs infeasRel ktratio : α) (reduced : Tols α) (minSw minTerm : α) (sym pd : Bool)
+    (z : α) (os : List (PassOracle α)) (r : Result α)
+    (h : solve (set.toConfig infeasAbs infeasRel ktratio reduced minSw minTerm sym pd) z os = .done r) :
+    ("max_iter", toString set.maxIter) ∈ fieldsOf (settingsToks fmt lin set)
+      ∧ r.iterations ≤ set.maxIter
+      ∧ (set.verbose = true → ∀ x ∈ col r.rows, x ≤ set.maxIter)
+      ∧ (set.verbose = false → ∀ s : Summary,
+          printConfiguration fmt lin set s = "" ∧ r.rows = [] ∧ r.footerStatus = none) := by
+  have hit : r.iterations ≤ set.maxIter := by
+    obtain ⟨st, hE, rfl⟩ := exit_of_done h
+    show (if (st.alpha == 0) = true then st.info.saveScalars st.mu st.alpha st.sigma st.iter
+          else st.info).iterations ≤ set.maxIter
+    have := hE.iter_le
+    split
+    · exact this
+    · rcases hE.iterations with e | ⟨e, _⟩
+      · have : st.iter ≤ set.maxIter := this
+        omega
+      · have : st.iter ≤ set.maxIter := this
+        omega
+  refine ⟨?_, hit, ?_, ?_⟩
+  · rw [fieldsOf_settingsToks]; simp
+  · intro hv x hx
+    obtain ⟨_, hchain, hlast, _, _⟩ := iteration_column _ hv z os r h
+    exact Nat.le_trans (chain_le_last _ hchain _ hlast x hx) hit
+  · intro hv s
+    obtain ⟨_, hrows, hfoot⟩ := silent _ hv z os r h (⟨fun _ => []⟩ : Renderer α) .sink
+    refine ⟨?_, hrows, hfoot⟩
+    unfold printConfiguration; rw [configurationToks_silent fmt lin set s hv]; rfl
+
+/-- [S] `C20.footer_determines_status`: the footer names the status unambiguously — two
+footers with the same arguments report the same `SolverStatus` — and it consists of the rule,
+the status line and the time line. -/
+theorem footer_determines_status {β : Type} (fmt : FloatFmt β) (st st' : Status) (t t' : β)
+    (h : fieldsOf (footerToks fmt true st t) = fieldsOf (footerToks fmt true st' t')) :
+    st = st' ∧ fmt.duration t = fmt.duration t' := by
+  simp only [footerToks, Bool.not_true, Bool.false_eq_true, ↓reduceIte, fieldsOf, List.cons.injEq,
+    Prod.mk.injEq, true_and, and_true] at h
+  exact ⟨status_toString_inj h.1, h.2⟩
+
 /-! ### the defect this property exposed (repaired in /repo; kept as a documented example)
 
 Before the repair, "the figures in the last line agree with the returned solution" failed
@@ -327,5 +609,37 @@ theorem last_row_after_repair :
   decide
 
 end Counterexample
+
+/-- a settings record over `ℤ` whose loop-relevant part is `Counterexample.cfg` -/
+def Counterexample.set : Settings Int :=
+  { verbose := true, maxIter := 10, timeLimit := 1000, maxStepFraction := 1, tolFeas := 1, tolGapAbs := 1,
+    tolGapRel := 1, staticRegularizationEnable := true, staticRegularizationConstant := 0,
+    staticRegularizationProportional := 0, dynamicRegularizationEnable := true,
+    dynamicRegularizationEps := 0, dynamicRegularizationDelta := 0, iterativeRefinementEnable := true,
+    iterativeRefinementReltol := 0, iterativeRefinementAbstol := 0, iterativeRefinementMaxIter := 10,
+    iterativeRefinementStopRatio := 5, equilibrateEnable := true, equilibrateMinScaling := 0,
+    equilibrateMaxScaling := 0, equilibrateMaxIter := 10, chordalDecompositionCompact := true,
+    chordalDecompositionCompleteDual := true, chordalDecompositionMergeMethod := "clique_graph" }
+
+open Counterexample in
+/-- non-vacuity of `header_settings_govern_loop`: the loop run with the config of that record ends -/
+example :
+    (match solve (Counterexample.set.toConfig 1 1 1 tols 0 0 true true) 0 [orc 50 5, orc 40 5, orc 100000 0] with
+     | .done r => some (r.status, r.iterations)
+     | _ => none) = some (.InsufficientProgress, 2) := by
+  decide
+
+open Counterexample in
+/-- non-vacuity of `header_reports_data` (scalars in `ℤ`): one row with an infinite bound is
+removed; the header shows 1 constraint, 1 removed, one nonnegative cone of dimension 1 -/
+example :
+    (match ProblemData.new (α := Int) ⟨1, 1, #[0, 0], #[], #[]⟩ #[1] ⟨2, 1, #[0, 2], #[0, 1], #[1, 1]⟩ #[5, 1000]
+        [.nonneg 2] true false 100 with
+     | .ok d => some (Summary.ofData d none)
+     | .error _ => none)
+      = some { presolveRemoved := some 1, chordal := none, n := 1, m := 1, nnzP := 0, nnzA := 1,
+               cones := [(.Nonnegative, 1)] } := by
+  decide
+
 
 end Clarabel.C20
